@@ -42,19 +42,23 @@ pub struct QCfg {
     /// request inside the notification or while the driver busy-waits), also while completions of
     /// earlier requests are waiting to be consumed.
     pub wait_pop: bool,
+    /// Include submissions during which the heap allocation of the indirect table fails (indirect
+    /// queues only): the call may fail in any way it likes, but without side effects, and if it
+    /// succeeds the new chain and every outstanding one must be intact.
+    pub oom: bool,
 }
 
 impl QCfg {
     pub fn label<const N: usize>(&self) -> String {
         format!(
-            "qcore:N={},indirect={},event_idx={},ap={},legacy={},off={},nops={},abs={},trace={},rs={},pre={},wp={}",
-            N, self.indirect as u8, self.event_idx as u8, self.ap as u8, self.legacy as u8, self.start_off, self.notify_ops as u8, self.abstract_idx as u8, self.trace as u8, self.reduced as u8, self.preroll, self.wait_pop as u8
+            "qcore:N={},indirect={},event_idx={},ap={},legacy={},off={},nops={},abs={},trace={},rs={},pre={},wp={},oom={}",
+            N, self.indirect as u8, self.event_idx as u8, self.ap as u8, self.legacy as u8, self.start_off, self.notify_ops as u8, self.abstract_idx as u8, self.trace as u8, self.reduced as u8, self.preroll, self.wait_pop as u8, self.oom as u8
         )
     }
     pub fn parse(s: &str) -> Option<(usize, QCfg)> {
         let s = s.strip_prefix("qcore:")?;
         let mut n = 0usize;
-        let mut c = QCfg { indirect: false, event_idx: false, ap: false, legacy: false, start_off: 0, notify_ops: false, abstract_idx: false, trace: false, reduced: false, preroll: 0, wait_pop: false };
+        let mut c = QCfg { indirect: false, event_idx: false, ap: false, legacy: false, start_off: 0, notify_ops: false, abstract_idx: false, trace: false, reduced: false, preroll: 0, wait_pop: false, oom: false };
         for kv in s.split(',') {
             let (k, v) = kv.split_once('=')?;
             let v: u64 = v.parse().ok()?;
@@ -71,6 +75,7 @@ impl QCfg {
                 "rs" => c.reduced = v != 0,
                 "pre" => c.preroll = v as u8,
                 "wp" => c.wait_pop = v != 0,
+                "oom" => c.oom = v != 0,
                 _ => return None,
             }
         }
@@ -87,6 +92,7 @@ pub const A_POP_EMPTY: u16 = 203;
 pub const A_NOTIFY_OFF: u16 = 210;
 pub const A_NOTIFY_ON: u16 = 211;
 pub const A_WAIT_POP: u16 = 220;
+pub const A_ADD_OOM0: u16 = 300;
 
 pub fn shapes_for_cfg(n: usize, reduced: bool) -> Vec<(usize, usize)> {
     if !reduced {
@@ -430,6 +436,13 @@ impl<const N: usize> World<N> {
         if self.cfg.wait_pop {
             v.push(A_WAIT_POP);
         }
+        if self.cfg.oom && self.cfg.indirect {
+            for (i, (ni, no)) in shapes_for_cfg(N, self.cfg.reduced).iter().enumerate() {
+                if ni + no > 0 {
+                    v.push(A_ADD_OOM0 + i as u16);
+                }
+            }
+        }
         v
     }
 
@@ -465,6 +478,13 @@ impl<const N: usize> World<N> {
             A_NOTIFY_OFF => "set_dev_notify(false)".into(),
             A_NOTIFY_ON => "set_dev_notify(true)".into(),
             A_WAIT_POP => "add_notify_wait_pop(1 readable, 1 writable), device serves it when notified".into(),
+            x if x >= A_ADD_OOM0 && x < A_ADD_OOM0 + 64 => {
+                let s = shapes_for_cfg(N, reduced);
+                match s.get((x - A_ADD_OOM0) as usize) {
+                    Some((i, o)) => format!("add({} readable, {} writable) while the heap allocation of the indirect table fails", i, o),
+                    None => format!("add(shape {}?) with failing allocation", x - A_ADD_OOM0),
+                }
+            }
             x => format!("action {}", x),
         }
     }
@@ -473,7 +493,8 @@ impl<const N: usize> World<N> {
     pub fn step(&mut self, a: u16, check: bool) {
         tlog!("step: {}", Self::describe_with(a, self.cfg.reduced));
         match a {
-            x if x < A_COMPLETE0 => self.do_add(x as usize, check),
+            x if x < A_COMPLETE0 => self.do_add(x as usize, check, false),
+            x if x >= A_ADD_OOM0 && x < A_ADD_OOM0 + 64 => self.do_add((x - A_ADD_OOM0) as usize, check, true),
             x if x < A_POP_RIGHT => self.do_complete((x - A_COMPLETE0) as usize, check),
             A_POP_RIGHT => self.do_pop_right(check),
             A_POP_WRONG_OUT => {
@@ -512,7 +533,7 @@ impl<const N: usize> World<N> {
         hal::with(|h| h.compact());
     }
 
-    fn do_add(&mut self, shape: usize, check: bool) {
+    fn do_add(&mut self, shape: usize, check: bool, oom: bool) {
         let shapes = shapes_for_cfg(N, self.cfg.reduced);
         let (ni, no) = shapes[shape];
         let n = ni + no;
@@ -536,8 +557,33 @@ impl<const N: usize> World<N> {
         let res = {
             let in_refs: Vec<&[u8]> = ins.iter().map(|b| unsafe { std::slice::from_raw_parts(b.as_ptr(), b.len()) }).collect();
             let mut out_refs: Vec<&mut [u8]> = outs.iter_mut().map(|b| unsafe { std::slice::from_raw_parts_mut(b.as_mut_ptr(), b.len()) }).collect();
+            if oom {
+                // One descriptor of 16 bytes per buffer, 16-byte aligned: the indirect table.
+                crate::alloc_watch::fail_next(16 * n, 16);
+            }
             self.traced(check, |q| unsafe { q.add(&in_refs, &mut out_refs) })
         };
+        let alloc_failed = oom && !crate::alloc_watch::take_fail_next();
+        if alloc_failed && !matches!(res, Ok(Ok(_))) {
+            // The submission failed (error or panic) because memory ran out: nothing may have
+            // changed, nothing may have been shared.
+            tag("add:allocation-failed");
+            tlog!("  indirect table allocation failed -> {:?}", res);
+            if check {
+                self.check_c02_other("add that ran out of memory");
+                let after = self.snap();
+                if Some(&after) != before.as_ref() {
+                    if after.hal_log_len != before.as_ref().unwrap().hal_log_len {
+                        viol("C04", "refused-add-shared", format!("add({},{}) failed for lack of heap memory but made platform share/unshare calls", ni, no));
+                    }
+                    viol("C03", "refused-add-side-effect", format!("add({},{}) failed for lack of heap memory but changed queue state or device-visible memory", ni, no));
+                }
+            }
+            return;
+        }
+        if alloc_failed {
+            tag("add:allocation-failed-but-accepted");
+        }
         let res = match res {
             Ok(r) => r,
             Err(p) => {
